@@ -35,6 +35,13 @@ func TestVerifC15(t *testing.T) {
 		rng := rec.seed(uint64(idx), 15)
 		sc := genSessScenario(rng, idx, "close-script")
 		point := closePoints[q%len(closePoints)]
+		// the deprecated SetDUP knob is still there: every data datagram is
+		// transmitted 1+n times, each copy in a pool buffer of its own. Dialled
+		// side only, before any traffic: the transmit goroutine reads the field
+		// without the session lock, so calling it on a session that is already
+		// sending (every accepted one) is a data race by construction
+		// (deprecated API, outside C14's statement; observed, see DESIGN.md)
+		sc.CfgC.Dup = pick(rng, []int{0, 0, 1, 2, 3})
 		order := make([]string, 4)
 		for i, p := range rng.perm(4) {
 			order[i] = units[p]
@@ -94,6 +101,27 @@ func TestVerifC15(t *testing.T) {
 		synctest.Test(t, func(t *testing.T) { runC11(t, rec, &sc, rng) })
 		rec.eval(1)
 		rec.count("backlog_overflow_shutdown_scenarios", 1)
+		rec.nontrivial(hashAny(sc))
+	}
+
+	// ---- part 1c: shutdown with sessions still waiting in the accept backlog ------
+	for q := 0; q < env.pickN(24, 300); q++ {
+		idx := caseIdx
+		caseIdx++
+		if !env.mine(idx) {
+			continue
+		}
+		rng := rec.seed(uint64(idx), 153)
+		sc := c11Scenario{Case: idx, Part: "backlog-close", Clients: pick(rng, []int{1, 2, 3, 4, 5, 7, 16, 40}), Bytes: 300,
+			Net: netProfile{Name: "clean", DelayMin: 2, DelayMax: 6, HealAt: 1}}
+		sc.Link.Cipher = pick(rng, cipherNames)
+		if rng.chance(0.5) {
+			sc.Link.D, sc.Link.P = 2, 1
+		}
+		rec.beginCase(sc)
+		synctest.Test(t, func(t *testing.T) { runC11(t, rec, &sc, rng) })
+		rec.eval(1)
+		rec.count("backlog_waiting_shutdown_scenarios", 1)
 		rec.nontrivial(hashAny(sc))
 	}
 
